@@ -36,6 +36,7 @@ mod layouts;
 mod mapper_mon;
 mod vclock;
 mod loop_mon;
+mod realdrv_mon;
 mod systemd_mon;
 mod keytable;
 mod wire_mon;
